@@ -853,11 +853,12 @@ func (w *hpW) pqObserve(after string) {
 			r.Violate("C05", "pq/contains-mismatch/after-"+after, "after %s: Contains(k%d) = %v, the model says %v", after, k, c, w.has[k])
 			return
 		}
-		if c {
-			if p := w.q.Priority(k); p != w.prio[k] {
-				r.Violate("C05", "pq/priority-mismatch/after-"+after, "after %s: Priority(k%d) = %d, the model says %d", after, k, p, w.prio[k])
-				return
-			}
+		if p := w.q.Priority(k); c && p != w.prio[k] {
+			r.Violate("C05", "pq/priority-mismatch/after-"+after, "after %s: Priority(k%d) = %d, the model says %d", after, k, p, w.prio[k])
+			return
+		} else if !c && p != 0 {
+			r.Violate("C05", "pq/priority-of-absent-key/after-"+after, "after %s: Priority(k%d) = %d for a key the queue does not hold (documented: the zero value)", after, k, p)
+			return
 		}
 	}
 	if w.n > 0 {
